@@ -426,4 +426,56 @@ def runBatches : EState → List Batch → Except Fault EState
       let s1 ← runE s (batchOps b)
       runBatches s1 bs
 
+
+/-! ## Part 4: what `contracts.Manager.ProcessActions` does at a processed index
+
+For each of the seven action kinds the store selects contracts (`Store.ContractActions`); for every
+selected contract the loop builds a transaction set unless a listed skip applies (no funds, no benefit
+to the host, proof index unknown, proof cannot be built, formation set empty), hands it to the pool
+(`AddPoolTransactions` / `AddV2PoolTransactions`) and, when the pool accepted it, to the syncer
+(`BroadcastTransactionSet` / `BroadcastV2TransactionSet`).  The v1 formation rebroadcast is the one
+path that hands the set to the syncer whether or not the pool accepted it (`tryFormationBroadcast`'s
+error is only logged). -/
+
+inductive ActKind where
+  | formation1 | revision1 | proof1 | formation2 | revision2 | proof2 | expiration2
+deriving DecidableEq, Repr
+
+/-- the v1 formation path broadcasts even what the pool refused (host/contracts/update.go:211-216) -/
+def ActKind.broadcastsRefused : ActKind → Bool
+  | .formation1 => true
+  | _ => false
+
+structure ActOut where
+  submitted : List Nat      -- contracts for which a set was handed to the pool
+  broadcast : List Nat      -- contracts whose set was handed to the syncer
+deriving DecidableEq, Repr
+
+/-- the decision function of one loop of `ProcessActions` -/
+def actsOf (k : ActKind) (selected : List Nat) (skip accepts : Nat → Bool) : ActOut :=
+  let sub := selected.filter (fun c => !skip c)
+  { submitted := sub, broadcast := sub.filter (fun c => accepts c || k.broadcastsRefused) }
+
+/-- what the harness observed of one loop: selected contracts, contracts with a logged skip, pool
+submissions that were accepted / refused, sets handed to the syncer (same transactions as the accepted
+submission / anything else) -/
+structure ActObs where
+  sel : List Nat
+  skips : List Nat
+  subOk : List Nat
+  subRej : List Nat
+  bcSame : List Nat
+  bcDiff : List Nat
+deriving Repr
+
+/-- `c06/acts/submitted`: every selected contract got a pool submission unless a listed skip applies -/
+def submittedOk (o : ActObs) : Bool := o.sel.all fun c => o.subOk.contains c || o.subRej.contains c || o.skips.contains c
+/-- `c06/acts/only_selected`: nothing is submitted for a contract the store did not select -/
+def onlySelectedOk (o : ActObs) : Bool := (o.subOk ++ o.subRej).all fun c => o.sel.contains c
+/-- `c06/acts/broadcast`: every accepted set is handed to the syncer, with the same transactions, and nothing else is -/
+def broadcastOk (o : ActObs) : Bool :=
+  (o.subOk.all fun c => o.bcSame.contains c) && o.bcDiff.isEmpty && (o.bcSame.all fun c => o.subOk.contains c || o.subRej.contains c)
+/-- `c06/acts/broadcast_refused`: nothing the pool refused is handed to the syncer -/
+def noRefusedBroadcastOk (o : ActObs) : Bool := (o.bcSame ++ o.bcDiff).all fun c => !o.subRej.contains c || o.subOk.contains c
+
 end Hostd.Wallet
